@@ -320,7 +320,9 @@ def readChunkedLoop (rblk : Nat) : Nat → Inp → Nat → List Bytes → List B
     | (none, i1) => (acc, i1)                 -- "" : size 0, then the 2-byte read
     | (some line, i1) =>
       let m := hexToInt line
-      match readInner rblk (m + 1) i1 m size acc with
+      -- `maxToRead = chunkSize.hexToInt()` is an int: 2^31.. is negative, the inner loop is skipped
+      let cnt := if m < 2147483648 then m else 0
+      match readInner rblk (cnt + 1) i1 cnt size acc with
       | (acc', i2, _, true) => (acc', i2)
       | (acc', i2, size', false) =>
         let two := i2.data.take 2
@@ -329,17 +331,27 @@ def readChunkedLoop (rblk : Nat) : Nat → Inp → Nat → List Bytes → List B
         else if m = 0 then (acc', i3)
         else readChunkedLoop rblk f i3 size' acc'
 
+/-- the Content-Length check of `readBody`: 1 to 10 decimal digits whose value fits an `int` -/
+def clValid (cl : Bytes) : Bool :=
+  decide (1 ≤ cl.length ∧ cl.length ≤ 10) && cl.all (fun c => decide (48 ≤ c ∧ c ≤ 57)) && decide (digitLoop cl 0 ≤ 2147483647)
+
 /-- `HttpMessage::readBody` -/
 def readBodyWith (rblk : Nat) (h : Dic) (i : Inp) : Bytes × Inp :=
   let cl := header h sContentLength
-  let size := atoi cl
   let chunked := header h sTransferEncoding == sChunked
-  if hasHeader h sContentLength ∧ cl = [48] then ([], i)
-  else if ¬ hasHeader h sContentLength ∧ ¬ chunked then ([], i)
-  else
-    let r := if chunked then readChunkedLoop rblk (i.data.length + 1) i size []
-             else readLenLoop rblk (i.data.length + 1) i size []
+  if hasHeader h sContentLength ∧ ¬ clValid cl then
+    -- a length with a sign, other characters or too many digits: the framing is unknown, the connection is given up
+    ([], { i with closed := true })
+  else if chunked then
+    -- Transfer-Encoding overrides Content-Length: the chunks alone frame the body (`size = 0`)
+    let r := readChunkedLoop rblk (i.data.length + 1) i 0 []
     (r.1.reverse.flatten, r.2)
+  else if hasHeader h sContentLength then
+    if cl = [48] then ([], i)
+    else
+      let r := readLenLoop rblk (i.data.length + 1) i (atoi cl) []
+      (r.1.reverse.flatten, r.2)
+  else ([], i)
 
 def readBody (h : Dic) (i : Inp) : Bytes × Inp := readBodyWith recvBlock h i
 
@@ -459,12 +471,32 @@ def readResponseHead (i : Inp) : Option (Nat × Bytes × Dic × Inp) :=
       some (atoi code, proto, h, i2)
     | _ => none
 
+/-- the `while (response.code() == 100)` loop of `Http::request`: an interim `100 Continue` (the server's answer to
+`Expect: 100-continue`) is followed by the final status line and headers, read into the same response object.
+`none`: the line after the interim response is missing or short (code 0, socket error text) -/
+def skipContinue : Nat → Nat × Bytes × Dic × Inp → Option (Nat × Bytes × Dic × Inp)
+  | 0, r => some r
+  | f + 1, (code, proto, h, i) =>
+    if code = 100 then
+      match readLine i with
+      | (none, _) => none
+      | (some line, i1) =>
+        match splitWs line with
+        | proto' :: code' :: _ =>
+          let (h', i2) := readHeaders i1 h
+          skipContinue f (atoi code', proto', h', i2)
+        | _ => none
+    else some (code, proto, h, i)
+
 def readResponse (i : Inp) : Response × Inp :=
   match readResponseHead i with
   | none => ({ code := 0, proto := sHttp11, headers := [], body := [], sockError := if (readLine i).2.err then sBadRecv else sOK }, i)
   | some (code, proto, h, i2) =>
-    let (body, i3) := readBody h i2
-    ({ code := code, proto := proto, headers := h, body := body, sockError := [] }, i3)
+    match skipContinue (i2.data.length + 1) (code, proto, h, i2) with
+    | none => ({ code := 0, proto := proto, headers := h, body := [], sockError := if i2.data.isEmpty then sBadRecv else sOK }, i2)
+    | some (code, proto, h, i2) =>
+      let (body, i3) := readBody h i2
+      ({ code := code, proto := proto, headers := h, body := body, sockError := [] }, i3)
 
 /-! ## `Http::request`: what the client puts on the wire -/
 
@@ -671,18 +703,29 @@ def serveOne (blk rblk : Nat) (optionsDefault : Bool) (q : Request) (p : Plan) (
 def serve1 (opt : Bool) (q : Request) (p : Plan) (jsonBody base : Bytes) : Served :=
   serveOne sendBlock recvBlock opt q p jsonBody base
 
+def sExpect : Bytes := [69, 120, 112, 101, 99, 116]
+def s100continue : Bytes := [49, 48, 48, 45, 99, 111, 110, 116, 105, 110, 117, 101]
+def sInterim100 : Bytes := [72, 84, 84, 80, 47, 49, 46, 49, 32, 49, 48, 48, 32, 67, 111, 110, 116, 105, 110, 117, 101, 13, 10, 13, 10]
+def sInterim417 : Bytes := [72, 84, 84, 80, 47, 49, 46, 49, 32, 52, 49, 55, 32, 84, 111, 111, 32, 98, 105, 103, 13, 10, 13, 10]
+
+/-- what `HttpRequest::read` writes back between the headers and the body: the answer to `Expect: 100-continue` -/
+def interimOf (h : Dic) : Bytes :=
+  if header h sExpect = s100continue then
+    (if isNeg (header h sContentLength) ∨ atoi (header h sContentLength) < 128000000 then sInterim100 else sInterim417)
+  else []
+
 /-- one turn of `serve(Socket)`'s loop: (request given to the handler, bytes written back, connection kept, rest) -/
 def serveStep (opt : Bool) (base : Bytes) (p : Plan) (i : Inp) : Option Request × Bytes × Bool × Inp :=
   if i.data.isEmpty ∨ i.dead then (none, [], false, i)
   else
     let (q, i') := readRequest i
-    if ¬ q.valid ∨ i'.err then (none, [], false, i')      -- `client.error()` or a missing part: dropped
+    if ¬ q.valid ∨ i'.err then (none, (if i'.closed then [] else interimOf q.headers), false, i')  -- `client.error()` or a missing part: dropped
     else if i'.closed then
       -- the header block broke off after a complete first line: the handler still runs, nothing can be written back
       (some q, [], false, i')
     else
       let s := serve1 opt q p [] base
-      (if s.called then some q else none, s.wire, s.keep, i')
+      (if s.called then some q else none, interimOf q.headers ++ s.wire, s.keep, i')
 
 /-- several requests arriving on one connection, served in order -/
 def serveConn (opt : Bool) (base : Bytes) : List Plan → Inp → List (Option Request × Bytes)
